@@ -34,88 +34,94 @@ ASSUMPTIONS = [
 
 def rule_r1(prog, res) -> None:
     """radius measured against the stored centre; count and weight sum from the same data"""
+    from .. import symx
+
     comp = prog.func("Metadata.compute")
     res.touch(comp)
-    fn = comp.node
-    new = None
-    for x in walk_no_nested(fn):
-        if isinstance(x, ast.Assign) and isinstance(x.value, ast.Call) and isinstance(x.value.func, ast.Attribute) and x.value.func.attr == "__new__":
-            new = x.targets[0].id
-    if new is None:
-        raise AnalysisError("C12.R1: Metadata.compute no longer builds the instance with __new__")
-    rad = [x for x in walk_no_nested(fn) if isinstance(x, ast.Assign) and any(unparse(t) == f"{new}.radius" for t in x.targets)]
-    cen = [x for x in walk_no_nested(fn) if isinstance(x, ast.Assign) and any(unparse(t) == f"{new}.center" for t in x.targets)]
-    if len(rad) != 1 or not cen:
-        raise AnalysisError("C12.R1: radius / center stores not recognised")
-    v = rad[0].value
-    dist = [c for c in ast.walk(v) if isinstance(c, ast.Call) and isinstance(c.func, ast.Attribute) and c.func.attr == "distance"]
-    coords_p = comp.param_names()[1]
-    okr = (
-        isinstance(v, ast.Call) and isinstance(v.func, ast.Attribute) and v.func.attr == "max" and len(dist) == 1 and dist[0].args and unparse(dist[0].args[0]) == f"{new}.center"
-        and unparse(dist[0].func.value) == coords_p
-    )
-    cfg = cfg_of(fn)
-    rn = cfg.nodes_of(rad[0])
-    cn = [n for c in cen for n in cfg.nodes_of(c)]
-    # every path to the radius passes a centre store
-    reach = cfg.reach([cfg.entry], avoid=lambda n: n in cn)
-    dominated = rn and all(r.id not in reach for r in rn)
-    # … and the centre is not replaced afterwards
-    later = cfg.reach(rn, labels={"n", "t", "f", "loop", "exh"}) if rn else set()
-    if any(c_.id in later and c_ not in rn for c_ in cn):
-        dominated = False
-    if okr and dominated:
-        res.ok("C12.R1", res.site(comp, "radius"), f"radius = max distance of {coords_p} to {new}.center, which is assigned on every path before")
-    else:
-        res.violation("C12.R1", comp, rad[0], f"the stored radius is not the maximum distance of the records from the stored centre (`{norm_stmt(rad[0])}`): records can lie outside the stored radius", key_extra="radius-reference")
-    # given centre is copied, computed centre is the (weighted) mean of the same coords
-    okc = True
-    for c in cen:
-        t = unparse(c.value)
-        if not (t == "center.copy()" or t == "center" or (t.startswith(f"{coords_p}.mean(") and "weights" in t)):
-            okc = False
-    if okc:
+    params = comp.param_names()
+    coords_p = params[1]
+    w_p = next((q for q in params if "weight" in q), None)
+    c_p = next((q for q in params if "cent" in q), None)
+    if w_p is None or c_p is None:
+        raise AnalysisError("C12.R1: Metadata.compute no longer takes weights / center")
+    pol = symx.inline_private_helpers(prog)
+    n_paths = 0
+    problems = {}
+    for has_w in (True, False):
+        for has_c in (True, False):
+            env = {w_p: "SOME" if has_w else None, c_p: "SOME" if has_c else None}
+            paths = [p for p in symx.explore(prog, comp, env=env, inline=pol) if p.outcome == "return"]
+            if not paths:
+                raise AnalysisError(f"C12.R1: Metadata.compute has no returning path for {env}")
+            for p in paths:
+                n_paths += 1
+                inst = sorted({k.rsplit(".", 1)[0] for k in p.store if k.endswith(".radius")})
+                if len(inst) != 1:
+                    raise AnalysisError("C12.R1: the instance built by Metadata.compute (attribute stores radius / center) was not recognised")
+                new = inst[0]
+                radius, centre = p.store.get(f"{new}.radius"), p.store.get(f"{new}.center")
+                nrec, sumw = p.store.get(f"{new}.num_records"), p.store.get(f"{new}.sum_weights")
+                if None in (radius, centre, nrec, sumw):
+                    raise AnalysisError("C12.R1: Metadata.compute does not set all of radius / center / num_records / sum_weights on a returning path")
+                # radius = max distance of the records to the centre that is stored
+                dist = [c for c in ast.walk(radius) if isinstance(c, ast.Call) and isinstance(c.func, ast.Attribute) and c.func.attr == "distance"]
+                okr = (
+                    isinstance(radius, ast.Call) and isinstance(radius.func, ast.Attribute) and radius.func.attr == "max" and len(dist) == 1 and dist[0].args
+                    and unparse(dist[0].args[0]) == unparse(centre) and unparse(dist[0].func.value) == coords_p
+                )
+                if not okr:
+                    problems.setdefault("radius-reference", (p, f"the stored radius `{unparse(radius)[:70]}` is not the maximum distance of the records from the stored centre `{unparse(centre)[:40]}`: records can lie outside the stored radius"))
+                tc = unparse(centre).replace(" ", "")
+                okc = tc in (f"{c_p}.copy()", c_p) if has_c else (tc.startswith(f"{coords_p}.mean(") and symx.mentions(centre, lambda y: isinstance(y, ast.Name) and y.id == w_p))
+                if not okc:
+                    problems.setdefault("center-source", (p, f"the stored centre `{tc[:60]}` is neither the given centre nor the weighted mean of the records ({'centre given' if has_c else 'no centre given'})"))
+                tn = unparse(nrec).replace(" ", "")
+                ts = unparse(sumw).replace(" ", "")
+                ok_n = tn == f"len({coords_p})"
+                if has_w:
+                    inner = [c for c in ast.walk(sumw) if isinstance(c, ast.Call) and (dotted(c.func) or "").split(".")[-1] in ("sum", "nansum")]
+                    ok_w = bool(inner) and not any(isinstance(y, ast.BinOp) for y in ast.walk(sumw)) and any(
+                        any(isinstance(a_, ast.Name) and a_.id == w_p for a_ in c.args) or (isinstance(c.func, ast.Attribute) and isinstance(c.func.value, ast.Name) and c.func.value.id == w_p) for c in inner
+                    )
+                else:
+                    ok_w = ts in (f"float(len({coords_p}))", f"len({coords_p})")
+                if not (ok_n and ok_w):
+                    problems.setdefault("count-weight-source", (p, f"num_records = `{tn[:40]}`, sum_weights = `{ts[:50]}` ({'weights given' if has_w else 'no weights'}) are not len() / sum() of the patch's own records"))
+    for key in ("radius-reference", "center-source", "count-weight-source"):
+        if key in problems:
+            p, msg = problems[key]
+            res.violation("C12.R1", comp, p.node or comp.node, msg, key_extra=key)
+    if "radius-reference" not in problems:
+        res.ok("C12.R1", res.site(comp, "radius"), f"radius = max distance of {coords_p} to the stored centre on all {n_paths} paths")
+    if "center-source" not in problems:
         res.ok("C12.R1", res.site(comp, "center"), "centre is the given centre or the weighted mean of the records")
-    else:
-        res.violation("C12.R1", comp, cen[0], "the stored centre is neither the given centre nor the weighted mean of the records", key_extra="center-source")
-    nr = [x for x in walk_no_nested(fn) if isinstance(x, ast.Assign) and any(unparse(t) == f"{new}.num_records" for t in x.targets)]
-    sw = [x for x in walk_no_nested(fn) if isinstance(x, ast.Assign) and any(unparse(t) == f"{new}.sum_weights" for t in x.targets)]
-    ok_n = len(nr) == 1 and unparse(nr[0].value) == f"len({coords_p})"
-    def _is_sum_of_weights(e) -> bool:
-        for x in ast.walk(e):
-            if isinstance(x, ast.Call):
-                fnm = (dotted(x.func) or "").split(".")[-1]
-                if fnm in ("sum", "nansum") and (any(isinstance(a, ast.Name) and a.id == "weights" for a in x.args) or (isinstance(x.func, ast.Attribute) and isinstance(x.func.value, ast.Name) and x.func.value.id == "weights")):
-                    return not any(isinstance(y, ast.BinOp) for y in ast.walk(e))
-        return False
-
-    def _is_count(e) -> bool:
-        t = unparse(e).replace(" ", "")
-        return t in (f"float({new}.num_records)", f"{new}.num_records", f"float(len({coords_p}))", f"len({coords_p})")
-
-    ok_w = len(sw) == 2 and sum(_is_sum_of_weights(s.value) for s in sw) == 1 and sum(_is_count(s.value) for s in sw) == 1
-    if ok_n and ok_w:
+    if "count-weight-source" not in problems:
         res.ok("C12.R1", res.site(comp, "count / weights"), "num_records = len(coords); sum_weights = sum(weights) or the count")
-    else:
-        res.violation("C12.R1", comp, (nr or sw or [fn])[0], "num_records / sum_weights are not len() / sum() of the patch's own records", key_extra="count-weight-source")
     pinit = prog.func("Patch.__init__")
     res.touch(pinit)
-    call = [c for c in calls_in(pinit) if any(t.name == "compute" for t in prog.resolve_call(pinit, c).funcs())]
-    if len(call) != 1:
+    cparam = next((q for q in pinit.param_names() if "cent" in q), None)
+    ipaths = symx.explore(prog, pinit, inline=symx.inline_private_helpers(prog, public={"compute", "read_patch_data", "from_file", "to_file"}), exceptions=False)
+    calls = [(p, ev) for p in ipaths for ev in p.calls("compute") if any(t.name == "compute" for t in prog.resolve_call(ev.fi, ev.node).funcs())]
+    if not calls:
         raise AnalysisError("C12.R1: Patch.__init__ no longer calls Metadata.compute")
-    args = [call[0].args[0], kwarg(call[0], "weights")]
-    srcs = set()
-    for a in args:
-        for x in ast.walk(a):
-            if isinstance(x, ast.Name) and x.id not in ("DataChunk", "None"):
-                srcs.add(x.id)
-    rd = [x for x in walk_no_nested(pinit.node) if isinstance(x, ast.Assign) and isinstance(x.value, ast.Call) and any(t.name == "read_patch_data" for t in prog.resolve_call(pinit, x.value).funcs())]
-    one_chunk = len(srcs) == 1 and rd and srcs <= {e.id for t in rd[0].targets for e in ast.walk(t) if isinstance(e, ast.Name)}
-    cen_fw = kwarg(call[0], "center")
-    if one_chunk and cen_fw is not None and unparse(cen_fw) == "center" and "self.data_path" in unparse(rd[0].value):
+    bad = None
+    for p, ev in calls:
+        args = [ev.expr.args[0] if ev.expr.args else kwarg(ev.expr, "coords"), kwarg(ev.expr, "weights")]
+        reads = set()
+        for a_ in args:
+            if a_ is None:
+                continue
+            for y in ast.walk(a_):
+                if isinstance(y, ast.Call) and (dotted(y.func) or "").split(".")[-1] == "read_patch_data":
+                    reads.add(unparse(y))
+        cen_fw = kwarg(ev.expr, "center")
+        one_chunk = len(reads) == 1 and "data_path" in next(iter(reads)) and all(a_ is None or symx.calls_named(a_, "read_patch_data") for a_ in args) and args[0] is not None
+        if not (one_chunk and cen_fw is not None and isinstance(cen_fw, ast.Name) and cen_fw.id == cparam):
+            bad = ev
+    if bad is None:
         res.ok("C12.R1", res.site(pinit), "coordinates and weights come from one chunk read from this patch's data file; the given centre is forwarded")
     else:
-        res.violation("C12.R1", pinit, call[0], "metadata are not computed from one chunk of this patch's own data file with the given centre", key_extra="meta-inputs")
+        res.violation("C12.R1", pinit, bad.node, "metadata are not computed from one chunk of this patch's own data file with the given centre", key_extra="meta-inputs")
 
 
 def rule_r2(prog, res) -> None:
